@@ -14,6 +14,7 @@ connection to be closed, and the connection is closed once that response has bee
 -/
 import TboxModel.C12.ProofsFeed
 import TboxModel.C12.ProofsPipe
+import TboxModel.C12.ProofsWire
 namespace Tbox.C12
 
 /-! ## A. parser and feed loop -/
@@ -39,8 +40,19 @@ theorem C12_total_feed (markP : Req → Bool) (c : Conn) (seg : Bytes) :
     · apply feedLoop_status
       simp [Conn.mu]; split <;> omega
 
+/-- The concrete examples below are written with the standard method / version names. The
+tables are regenerated from common.cpp on every run, so each example states what it presupposes
+of them; `tablesStd_holds` shows the presupposition is true of the tree the proofs were built on.
+(Should a table entry change, the examples stay true and cheap to check, and the check reports
+the changed entry through the `method` / `version` ops with the name as replay.) -/
+def tablesStd : Bool :=
+  methodOf (ascii "GET") == some "kGet" && methodOf (ascii "POST") == some "kPost" &&
+  verOf (ascii "HTTP/1.1") == some "k1_1" && verOf (ascii "HTTP/1.0") == some "k1_0"
+
+theorem tablesStd_holds : tablesStd = true := by decide +kernel
+
 /-- the unpatched parser throws on a non-numeric Content-Length (`std::stoi`) -/
-theorem C12_total_counterexample_unpatched :
+theorem C12_total_counterexample_unpatched : tablesStd = true →
     parse Cfg.orig PState.init (ascii "GET / HTTP/1.1\r\nContent-Length: abc\r\n\r\n") = .threw := by
   decide +kernel
 
@@ -78,7 +90,7 @@ theorem C12_resumable_partial (markP : Req → Bool) (c : Conn) (xs ys : Bytes)
 
 /-- the hypothesis of C12_resumable_partial is needed: without Content-Length the split changes
 the request (body "abc" vs empty body, and then a parse failure) -/
-theorem C12_resumable_counterexample :
+theorem C12_resumable_counterexample : tablesStd = true →
     let xs := ascii "GET / HTTP/1.1\r\n\r\n"
     let ys := ascii "abc"
     reqsOf (recv Cfg.fixed isLast {} xs).evs ++ reqsOf (recv Cfg.fixed isLast (recv Cfg.fixed isLast {} xs).conn ys).evs
@@ -87,7 +99,7 @@ theorem C12_resumable_counterexample :
 
 /-- unpatched code: a first segment ending inside the method kills the connection although the
 unsplit stream is a valid request with a declared length -/
-theorem C12_resumable_counterexample_unpatched :
+theorem C12_resumable_counterexample_unpatched : tablesStd = true →
     let xs := ascii "GE"
     let ys := ascii "T / HTTP/1.1\r\nContent-Length: 0\r\n\r\n"
     allDeclared (recv Cfg.orig isLast {} (xs ++ ys)).evs = true ∧
@@ -128,22 +140,41 @@ theorem C12_segmentation (markP : Req → Bool) (segs : List Bytes) (c : Conn) (
     rw [feedSegs, this]
     simp [C12_total_feed, hres.1, hres.2]
 
-/-
--- OPEN C12_segmentation_wellformed (corollary over the wire form, Spec.WireReq): for every list `ws` of
---   requests whose method/version are table entries, whose target is accepted by `parseUrlPath` and free
---   of space/CR/LF, whose header keys/values are free of CR/LF/':' (keys) and non-empty after stripping,
---   `allDeclared (recv Cfg.fixed markP {} (ws.map WireReq.encode).flatten).evs = true` and the requests handed
---   out are exactly `ws` (parsed). This is functional correctness of the parser on well-formed input
---   (decimal round trip of Content-Length, first-CRLF positions); not closed in the time available.
---   C12_segmentation above is the segmentation statement for every stream that satisfies the decidable
---   hypothesis; the example below shows a well-formed pipelined stream satisfying it.
--/
+/-- C12_parse_wellformed: functional correctness of `parse` on well-formed input. For every
+well-formed request with a declared Content-Length (`WireReq.wellFormed`, decidable) followed by
+any bytes, one `parse` call from `kInit` completes exactly this request — method, target,
+version, the header map, the body — and leaves exactly the following bytes. -/
+theorem C12_parse_wellformed (w : WireReq) (hw : w.wellFormed = true) (rest : Bytes) :
+    parse Cfg.fixed PState.init (w.encode ++ rest) = .ok ⟨.all, w.toReq, some w.body.length⟩ rest :=
+  parse_wire w hw PState.init rfl rest
+
+/-- C12_segmentation_wellformed: for every list of well-formed requests with declared lengths,
+written back to back, and EVERY segmentation of that stream (any number of segments of any
+size, down to single bytes), a fresh connection hands out exactly these requests, in order
+(up to and including the first one that closes the connection), every call returns normally —
+no hypothesis on the run is left. -/
+theorem C12_segmentation_wellformed (markP : Req → Bool) (ws : List WireReq)
+    (hws : ∀ w ∈ ws, w.wellFormed = true) (seg : Bytes) (segs : List Bytes)
+    (hsplit : seg ++ segs.flatten = (ws.map WireReq.encode).flatten) :
+    (feedSegs Cfg.fixed markP {} (seg :: segs)).2 = (expectedReqs markP ws, true) := by
+  have hone : reqsOf (recv Cfg.fixed markP {} (seg ++ segs.flatten)).evs = expectedReqs markP ws := by
+    rw [hsplit]
+    simp only [recv, Bool.false_eq_true, if_false, List.length_nil, List.nil_append]
+    exact feedLoop_wire markP ws hws false false _ (by omega)
+  have hdecl : allDeclared (recv Cfg.fixed markP {} (seg ++ segs.flatten)).evs = true := by
+    rw [allDeclared_eq, hone]; exact expectedReqs_declared markP ws
+  rw [C12_segmentation markP segs {} seg hdecl, hone]
 
 /-- non-vacuity: a pipelined stream of two well-formed requests with declared lengths satisfies
 the hypothesis of C12_resumable_partial / C12_segmentation and yields two requests -/
-example :
+example : tablesStd = true →
     let s := ascii "POST /a?x=1 HTTP/1.1\r\nHost: h\r\nContent-Length: 3\r\n\r\nabcGET /b HTTP/1.1\r\nContent-Length: 0\r\n\r\n"
     allDeclared (recv Cfg.fixed isLast {} s).evs = true ∧ (reqsOf (recv Cfg.fixed isLast {} s).evs).length = 2 := by
+  decide +kernel
+
+/-- non-vacuity: a concrete wire request with headers, parameters and a body is well-formed -/
+example : tablesStd = true → (WireReq.mk (ascii "POST") (ascii "/a;k=v?x=1#f") (ascii "HTTP/1.1")
+    [(ascii "Host", ascii "example.com"), (ascii "Connection", ascii "close")] (ascii "abc")).wellFormed = true := by
   decide +kernel
 
 /-- non-vacuity of the split itself: the byte-wise prefix "POST /a?x=1 HT" leaves the parser waiting -/
@@ -241,7 +272,7 @@ theorem C12_no_response_stuck (ops : List PipeOp) (hok : traceOk {} ops = true) 
 
 theorem step_invalid (p : Pipe) (op : PipeOp) (h : p.valid = false) :
     (p.step op).valid = false ∧ (p.step op).written = p.written := by
-  cases op <;> simp [Pipe.step, Pipe.onRequest, Pipe.commit, Pipe.sendComplete, Pipe.disconnect, h]
+  cases op <;> simp [Pipe.step, Pipe.onRequest, Pipe.commit, Pipe.sendComplete, Pipe.peerClosed, Pipe.kernel, h]
 
 theorem run_invalid (p : Pipe) (ops : List PipeOp) (h : p.valid = false) :
     (p.run ops).valid = false ∧ (p.run ops).written = p.written := by
@@ -276,16 +307,73 @@ theorem C12_nothing_after_close (ops : List PipeOp) (hok : traceOk {} ops = true
   · intro more hv
     exact (run_invalid _ more hv).2
 
+/-! ### peer-initiated close, tear-down, partial writes -/
+
+/-- C12_single_disconnect: for EVERY history — requests, completions in any order and at any
+time, send-complete, kernel progress, and the peer closing (or the parser failing) at any point,
+any number of times — the connection object is torn down at most once, exactly when the
+connection becomes invalid; the peer never holds more than was handed to `send`; and once the
+connection is gone nothing is written whatever happens afterwards. -/
+theorem C12_single_disconnect (ops more : List PipeOp) :
+    (Pipe.run {} ops).disconnects ≤ 1 ∧
+    ((Pipe.run {} ops).valid = false ↔ (Pipe.run {} ops).disconnects = 1) ∧
+    (Pipe.run {} ops).sent ≤ (Pipe.run {} ops).handed.length ∧
+    ((Pipe.run {} ops).valid = false →
+      ((Pipe.run {} ops).run more).written = (Pipe.run {} ops).written ∧
+      ((Pipe.run {} ops).run more).disconnects = 1) := by
+  have h := run_inv2 {} ops inv2_init
+  have h1 := h.once
+  refine ⟨?_, ?_, h.sentLe, ?_⟩
+  · rw [h1]; split <;> omega
+  · rw [h1]; cases (Pipe.run {} ops).valid <;> simp
+  · intro hv
+    have hm := run_invalid _ more hv
+    have h2 := (run_inv2 _ more h).once
+    rw [hm.1] at h2
+    exact ⟨hm.2, by simpa using h2⟩
+
+/-- C12_peer_stream (composition with the send-side contract, assumed: "the bytes handed to
+`send` reach the peer in order", property C06): at every moment of every admissible history what
+the peer has received is a prefix of the responses to requests 0,1,…,resIndex-1 concatenated in
+request order — however the kernel cuts large responses into partial writes. -/
+theorem C12_peer_stream (ops : List PipeOp) (hok : traceOk {} ops = true) :
+    (Pipe.run {} ops).peerBytes <+: ((Pipe.run {} ops).written.map (·.2)).flatten ∧
+    InOrderOnce (Pipe.run {} ops).written (Pipe.run {} ops).resIndex :=
+  ⟨List.take_prefix _ _, (C12_in_order_once ops hok).1⟩
+
+/-- C12_close_after_full_delivery: in every admissible history without a peer-initiated close or
+parse failure, a connection that is gone (dropped by the server after the closing response) has
+delivered every byte handed to `send` — the closing response reaches the peer completely before
+the connection is dropped, also when it needed many partial writes. (Send-complete being
+reported only after the send buffer drained is the assumed send-side contract, part of `traceOk`.) -/
+theorem C12_close_after_full_delivery (ops : List PipeOp) (hok : traceOk {} ops = true)
+    (hnd : PipeOp.drop ∉ ops) (hgone : (Pipe.run {} ops).valid = false) :
+    (Pipe.run {} ops).peerBytes = ((Pipe.run {} ops).written.map (·.2)).flatten := by
+  have := run_noLoss {} ops (by intro h; simp at h) hok hnd hgone
+  unfold Pipe.peerBytes
+  rw [this]
+  exact List.take_length
+
+/-- non-vacuity: partial writes of a closing response, then send-complete drops the connection -/
+example :
+    let ops := [PipeOp.req true, .commit 0 [1, 2, 3, 4, 5], .kernel 2, .kernel 1, .kernel 9, .sendComplete]
+    traceOk {} ops = true ∧ PipeOp.drop ∉ ops ∧ (Pipe.run {} ops).valid = false ∧
+    (Pipe.run {} (ops.take 3)).peerBytes = [1, 2] ∧ (Pipe.run {} ops).peerBytes = [1, 2, 3, 4, 5] := by
+  decide +kernel
+
+/-- a send-complete while bytes are still buffered is not admissible (contract) -/
+example : traceOk {} [PipeOp.req true, .commit 0 [1, 2, 3], .kernel 2, .sendComplete] = false := by decide +kernel
+
 /-- non-vacuity: an admissible history with out-of-order completion and a closing request -/
 example :
-    let ops := [PipeOp.req false, .req false, .commit 1 [1], .req true, .commit 2 [2], .commit 0 [0], .sendComplete]
+    let ops := [PipeOp.req false, .req false, .commit 1 [1], .req true, .commit 2 [2], .commit 0 [0], .kernel 3, .sendComplete]
     traceOk {} ops = true ∧ (Pipe.run {} ops).written = [(0, [0]), (1, [1]), (2, [2])] ∧
     (Pipe.run {} ops).closeIndex = some 2 ∧ (Pipe.run {} ops).valid = false := by
   decide +kernel
 
 /-- unpatched feed loop: a request pipelined in the same segment after a closing request is
 still handed to the handler … -/
-theorem C12_nothing_after_close_counterexample_unpatched :
+theorem C12_nothing_after_close_counterexample_unpatched : tablesStd = true →
     (reqsOf (recv Cfg.orig isLast {} (ascii
       "GET /a HTTP/1.1\r\nConnection: close\r\nContent-Length: 0\r\n\r\nGET /b HTTP/1.1\r\nContent-Length: 0\r\n\r\n")).evs).map (·.2.1)
       = [true, false] ∧
